@@ -205,7 +205,8 @@ FeeWithdraw_ == AdminOps /\ \E u \in Principals, a \in {1, w.c.fees, w.c.fees + 
 Breaker      == AdminOps /\ \E u \in Principals : Do(BreakerCall(u))
 Resume       == AdminOps /\ w.c.stopped /\ \E u \in Principals, k \in ResumeScales :
                   LET n == CASE k = "same" -> w.c.N [] k = "down" -> w.c.N - (w.c.N \div 3) [] k = "up" -> w.c.N + 1
-                  IN (w.c.L = 0 \/ n > 0) /\ Do(ResumeCall(u, n, w.c.L, w.c.rewards))
+                  \* at most one correction of the totals per behaviour (each one opens a new family of totals)
+                  IN (w.c.L = 0 \/ n > 0) /\ (k = "same" \/ w.led.radjN = 0) /\ Do(ResumeCall(u, n, w.c.L, w.c.rewards))
 Tick         == \E t \in TimePoints : Do(TimeCall(t))
 
 Next == Stake \/ StakeVariants \/ Unstake \/ Submit \/ Withdraw_ \/ Rewards \/ ReturnBatch \/ WrongSender \/ Direct \/ TopUp
